@@ -7,6 +7,9 @@ NT = set("send-with-several-attempts,partial-failure-attempt,stop-with-request-i
 
 
 class Eng(prod.PRODEngine):
+    MACROS = prod.PRODEngine.MACROS + ["unroutable", "unroutable"]
+    MACRO_ONE_IN = 5
+
     def nontrivial(self):
         return bool(self.nt & NT) or bool(NT & self.labels)
 
